@@ -56,7 +56,7 @@ def make_cov(spec):
   values, then `.hyperparameters = hp`), "inplace" (constructed from an array that is then overwritten in place and assigned again - what an
   in-place optimiser or the likelihood's setter does), "readmod" (the caller scribbles on what the getter returned), and the WRITTEN_LIVES:
   "rejected" (constructed with them; then inadmissible vectors are offered to the live object and refused - HyperparameterInvalidError caught, what an optimiser
-  stepping outside the admissible region causes; for the tensor kernel the inadmissible entry is the process variance, see C03_hyper_live_multitask_*),
+  stepping outside the admissible region causes; process variance, a length scale, the last entry - for the tensor kernel too, C03_hyper_live_multitask_*),
   "buffer_written" (constructed from a float64 ndarray that its owner overwrites right afterwards), "assigned_written" (the same through
   the setter), "buffer_late" (constructed from such an array, which is overwritten only after a GP has been built on the kernel: make_gp /
   write_caller_buffer).  Whatever the history, the object must be the kernel with hyperparameters hp."""
@@ -83,9 +83,8 @@ def make_cov(spec):
       pass
   elif life == "rejected":
     from libsigopt.compute.covariance_base import HyperparameterInvalidError
-    offers = [other_hp(hp) * numpy.array([-1.0] + [1.0] * (len(hp) - 1))]
-    if spec["cls"] != "multitask":
-      offers += [numpy.concatenate([other_hp(hp)[:-1], [0.0]]), numpy.concatenate([[float("nan")], other_hp(hp)[1:]])]
+    offers = [other_hp(hp) * numpy.array([-1.0] + [1.0] * (len(hp) - 1)), numpy.concatenate([other_hp(hp)[:-1], [0.0]]),
+              numpy.concatenate([[float("nan")], other_hp(hp)[1:]]), other_hp(hp) * numpy.array([1.0, -1.0] + [1.0] * (len(hp) - 2))]
     for bad in offers:
       try:
         k.hyperparameters = bad
